@@ -406,6 +406,17 @@ var c08Families = func() []c08Family {
 		{name: "cbe-many-short-typed-arrays", format: "cbe", timing: true, maxN: 1 << 17, build: func(n int, _ []byte) []byte {
 			return cbeDoc([]byte{0x9a}, repB([]byte{0x7f, 0x22, 1, 0, 2, 0, 0x7f, 0x13, 1, 2, 3}, n), []byte{0x9b})
 		}},
+		// one large array-like value followed by many small ones: what a value costs must not depend on the
+		// size of an earlier one
+		{name: "cte-big-string-then-many-small", format: "cte", timing: true, maxN: 1 << 15, build: func(n int, _ []byte) []byte {
+			return []byte("c0\n[\"" + rep("x", 16*n) + "\" " + rep("\"a\" ", n) + "]")
+		}},
+		{name: "cte-big-array-then-many-small", format: "cte", timing: true, maxN: 1 << 14, build: func(n int, _ []byte) []byte {
+			return []byte("c0\n[@u8x[" + strings.TrimSpace(rep("ff ", 8*n)) + "] " + rep("@u8x[01] ", n) + "]")
+		}},
+		{name: "cbe-big-string-then-many-small", format: "cbe", timing: true, maxN: 1 << 17, build: func(n int, _ []byte) []byte {
+			return cbeDoc([]byte{0x9a, 0x90}, uleb(uint64(16*n)<<1), bytes.Repeat([]byte{'x'}, 16*n), repB([]byte{0x90, 0x02, 'a'}, n), []byte{0x9b})
+		}},
 		{name: "cte-record-many-values", format: "cte", timing: true, maxN: 1 << 14, build: func(n int, _ []byte) []byte {
 			var b strings.Builder
 			b.WriteString("c0\n@r<")
@@ -488,6 +499,18 @@ func c08Run(format, pipeline string, doc []byte, cfg *configuration.Configuratio
 			ce.UnmarshalFromCBEDocument(doc, tmpl, cfg)
 		} else {
 			ce.UnmarshalFromCTEDocument(doc, tmpl, cfg)
+		}
+		return
+	}
+	if pipeline == "unmarshal-norules" {
+		// the validator out of the way (Marshal.EnforceRules = false): what the decoder and the builders
+		// reserve must still follow the data that arrived, not the lengths a header declares
+		c2 := *cfg
+		c2.Marshal.EnforceRules = false
+		if format == "cbe" {
+			ce.UnmarshalFromCBEDocument(doc, nil, &c2)
+		} else {
+			ce.UnmarshalFromCTEDocument(doc, nil, &c2)
 		}
 		return
 	}
@@ -635,7 +658,7 @@ func genC08(t *rapid.T, ctx *Ctx) interface{} {
 		f = c08Families[0]
 	}
 	c := &C08Case{Family: f.name, MaxArray: rapid.SampledFrom([]int{1 << 10, 64 << 10, 1 << 20}).Draw(t, "maxarray"),
-		Pipeline: rapid.SampledFrom([]string{"decode", "unmarshal", "unmarshal"}).Draw(t, "pipeline")}
+		Pipeline: rapid.SampledFrom([]string{"decode", "unmarshal", "unmarshal", "unmarshal-norules"}).Draw(t, "pipeline")}
 	if c08Templates[f.name] != nil && rapid.Bool().Draw(t, "typed") {
 		c.Pipeline = "unmarshal-typed:" + f.name
 	}
